@@ -855,12 +855,15 @@ class Engine:
         cs = self.sim.code_state()
         return [
             {q: [d["original"], d["count"], d["caps"]] for q, d in cs.items()},
-            len(self.handlers_ids()),
+            len(self.handlers_ids() or []),
             len(SEAMS["global_probes"]),
         ]
 
     def handlers_ids(self):
-        return [id(acc) for _, acc in self.sim.handlers_now()]
+        pairs = self.sim.handlers_now()
+        if pairs is None:
+            return None
+        return [id(acc) for _, acc in pairs]
 
     # -- code ops + invariants -------------------------------------------------
     def op_code(self, op):
@@ -1054,10 +1057,14 @@ class Engine:
         exp = []
         for pid in self.order:
             rec = self.probes[pid]
-            hs = rec.obj._ol.handlers if rec.obj is not None else rec.overlay.handlers
+            ol = getattr(rec.obj, "_ol", None) if rec.obj is not None else rec.overlay
+            hs = getattr(ol, "handlers", None)
+            if hs is None:
+                self.sim.reach("introspection_unavailable:overlay_handlers")
+                return
             exp.extend(id(h) for h in hs)
         got = self.handlers_ids()
-        if sorted(exp) != sorted(got):
+        if got is not None and sorted(exp) != sorted(got):
             self.violate(
                 self.sc.get("handlers_inv", "C05.no_handlers"),
                 {"after": op.get("op"), "expected_handlers": len(exp), "installed": len(got),
